@@ -2,11 +2,11 @@ SPECIFICATION Spec
 CONSTANTS
  MaxDepth = 2
  MaxItems = 2
- MaxLen = 10
+ MaxLen = 9
  MaxVar = 1
  MaxStr = 1
  Linear = FALSE
  Stride = 1
  QKeySlashIsComment = TRUE
-INVARIANTS TypeOK GenRecAgree PrefixRejected SMAgree SMPrefix SMNoUnderflow SMChunks
+INVARIANTS TypeOK GenRecAgree PrefixRejected SMAgree
 CHECK_DEADLOCK FALSE
